@@ -40,13 +40,19 @@ pub struct Ctx {
     pub sample: Option<String>,
     pub want_sample: bool,
     pub known_hits: Vec<(String, String)>,
+    /// named maxima (merged by max into the evidence; e.g. observed memory per input byte)
+    pub maxima: BTreeMap<String, u64>,
     /// replay mode: known findings are still tolerated (they are listed), nothing else changes
     pub replay: bool,
 }
 
 impl Ctx {
     pub fn new(want_sample: bool) -> Self {
-        Ctx { classes: BTreeMap::new(), nontrivial: Vec::new(), evals: 1, sample: None, want_sample, known_hits: vec![], replay: false }
+        Ctx { classes: BTreeMap::new(), nontrivial: Vec::new(), evals: 1, sample: None, want_sample, known_hits: vec![], maxima: BTreeMap::new(), replay: false }
+    }
+    pub fn maximum(&mut self, name: &str, v: u64) {
+        let e = self.maxima.entry(name.to_string()).or_insert(0);
+        *e = (*e).max(v);
     }
     pub fn class(&mut self, label: &str) {
         *self.classes.entry(label.to_string()).or_insert(0) += 1;
@@ -266,6 +272,7 @@ struct Acc {
     classes: BTreeMap<String, u64>,
     samples: Vec<String>,
     known: BTreeMap<String, (u64, String)>,
+    maxima: BTreeMap<String, u64>,
     failures: Vec<J>,
 }
 
@@ -283,6 +290,10 @@ impl Acc {
                 self.samples.push(s);
             }
         }
+        for (k, v) in ctx.maxima {
+            let e = self.maxima.entry(k).or_insert(0);
+            *e = (*e).max(v);
+        }
         for (sig, what) in ctx.known_hits {
             let e = self.known.entry(sig).or_insert((0, what));
             e.0 += 1;
@@ -297,6 +308,7 @@ impl Acc {
             "hashes": self.hashes.iter().collect::<Vec<_>>(),
             "classes": self.classes,
             "samples": self.samples,
+            "maxima": self.maxima,
             "known": self.known.iter().map(|(k,(n,w))| json!({"sig":k,"count":n,"what":w})).collect::<Vec<_>>(),
             "failures": self.failures,
         })
@@ -655,7 +667,8 @@ pub fn supervisor_main(p: &Property, tier: Tier, extra: Option<&ExtraEvidence>) 
     let mut violations: Vec<(PathBuf, String)> = vec![];
 
     // crashed workers: locate the case with a journal re-run, then minimise out of process
-    for w in crashed {
+    let ncrashed = crashed.len();
+    for w in crashed.into_iter().take(2) {
         let outp = work.join(format!("{}-w{}-j.json", tag, w));
         let jp = work.join(format!("{}-w{}.journal", tag, w));
         let st = Command::new(&exe)
@@ -709,6 +722,9 @@ pub fn supervisor_main(p: &Property, tier: Tier, extra: Option<&ExtraEvidence>) 
         }
     }
 
+    if ncrashed > 2 {
+        println!("  ({} worker processes died; the first 2 were located and minimised)", ncrashed);
+    }
     total.failures.sort_by_key(|f| f["msg"].as_str().map(|m| m.len()).unwrap_or(0));
     {
         let mut seen = HashSet::new();
@@ -804,6 +820,12 @@ fn merge(total: &mut Acc, j: &J) {
             *total.classes.entry(k.clone()).or_insert(0) += v.as_u64().unwrap_or(0);
         }
     }
+    if let Some(m) = j["maxima"].as_object() {
+        for (k, v) in m {
+            let e = total.maxima.entry(k.clone()).or_insert(0);
+            *e = (*e).max(v.as_u64().unwrap_or(0));
+        }
+    }
     if let Some(a) = j["samples"].as_array() {
         for s in a.iter().take(2) {
             if total.samples.len() < 16 {
@@ -863,6 +885,7 @@ fn write_evidence(
         "exhaustive_domain_evaluations": phase_exh,
         "excluded_known": excluded,
         "known_findings_observed": known,
+        "observed_maxima": acc.maxima,
     });
     if let Some(e) = extra {
         cov["fuzz_execs"] = json!(e.fuzz_execs);
